@@ -7,7 +7,7 @@
 //!   impl_vs_model : long-lived result ≠ the model's result evaluated on a fresh reader (purity / state),
 //!   impl_vs_spec  : the path identities of the property (range = ref converted, range_at(n) = range(name_n),
 //!                   worksheets() entries = per-name ranges, unknown sheet = error, auto = format reader).
-use calamine::{open_workbook_auto, open_workbook_auto_from_rs, Data, HeaderRow, Ods, Range, Reader, ReaderRef, Sheets, Xls, Xlsb, Xlsx};
+use calamine::{CellErrorType, DataRef, DataType, ExcelDateTime, ExcelDateTimeType, open_workbook_auto, open_workbook_auto_from_rs, Data, HeaderRow, Ods, Range, Reader, ReaderRef, Sheets, Xls, Xlsb, Xlsx};
 use std::io::Cursor;
 use verif_harness::wb::{self, AnyBook, Fmt};
 use verif_harness::{driver::Driver, guarded, hex, report::Report, rng::Rng, Args};
@@ -204,6 +204,141 @@ fn run_auto(bytes: &[u8], fmt: Option<Fmt>, with_path: bool, drv: &mut Driver, r
             }
         }
         let _ = std::fs::remove_dir(&dir);
+    }
+    fails
+}
+
+// ---------------------------------------------------------------------------------------------------------
+// the conversion DataRef -> Data and the DataType observations of both sides (Model/DataConv.lean)
+
+const ERRS: [CellErrorType; 8] = [
+    CellErrorType::Div0,
+    CellErrorType::NA,
+    CellErrorType::Name,
+    CellErrorType::Null,
+    CellErrorType::Num,
+    CellErrorType::Ref,
+    CellErrorType::Value,
+    CellErrorType::GettingData,
+];
+
+fn hexs(s: &str) -> String {
+    if s.is_empty() { "-".into() } else { hex(s.as_bytes()) }
+}
+
+fn edt_wire(d: &ExcelDateTime) -> String {
+    // is_1904 has no accessor: taken from the Debug text
+    let is1904 = format!("{d:?}").contains("is_1904: true");
+    format!("{}:{}:{}", d.as_f64().to_bits(), d.is_duration() as u8, is1904 as u8)
+}
+
+/// the observations of the `DataType` trait in the driver's text form; `str_dep` = the cell is a text (the number
+/// parsers are consulted)
+fn view_of<T: DataType>(v: &T, str_dep: bool) -> String {
+    let b = |x: bool| if x { '1' } else { '0' };
+    let flags: String = [
+        v.is_empty(), v.is_int(), v.is_float(), v.is_bool(), v.is_string(), v.is_duration_iso(), v.is_datetime(),
+        v.is_datetime_iso(), v.is_error(),
+    ]
+    .iter()
+    .map(|x| b(*x))
+    .collect();
+    let o = |x: Option<String>| x.unwrap_or("-".into());
+    let k = |some: bool| if str_dep { 'p' } else if some { 'v' } else { 'n' };
+    format!(
+        "{flags},gi={},gf={},gb={},gs={},gd={},gdi={},gdu={},ge={},as={}{}{}",
+        o(v.get_int().map(|x| x.to_string())),
+        o(v.get_float().map(|x| x.to_bits().to_string())),
+        o(v.get_bool().map(|x| b(x).to_string())),
+        o(v.get_string().map(|x| format!("x{}", hexs(x)))),
+        o(v.get_datetime().map(|d| edt_wire(&d))),
+        o(v.get_datetime_iso().map(|x| format!("x{}", hexs(x)))),
+        o(v.get_duration_iso().map(|x| format!("x{}", hexs(x)))),
+        o(v.get_error().map(|e| ERRS.iter().position(|x| x == e).unwrap().to_string())),
+        b(v.as_string().is_some()),
+        k(v.as_i64().is_some()),
+        k(v.as_f64().is_some()),
+    )
+}
+
+fn data_wire(d: &Data) -> String {
+    match d {
+        Data::Empty => "-".into(),
+        Data::Int(v) => format!("i:{v}"),
+        Data::Float(f) => format!("f:{}", f.to_bits()),
+        Data::String(s) => format!("s:{}", hexs(s)),
+        Data::Bool(b) => format!("b:{}", *b as u8),
+        Data::DateTime(d) => format!("d:{}", edt_wire(d)),
+        Data::DateTimeIso(s) => format!("t:{}", hexs(s)),
+        Data::DurationIso(s) => format!("u:{}", hexs(s)),
+        Data::Error(e) => format!("e:{}", ERRS.iter().position(|x| x == e).unwrap()),
+    }
+}
+
+const TEXTS: [&str; 14] = ["", "0", "-7", "42", "+5", " 12", "1e3", "3.25", "-0.0", "inf", "NaN", "abc", "9223372036854775808", "é漢"];
+
+fn gen_cell_wire(rng: &mut Rng) -> String {
+    let f = |rng: &mut Rng| match rng.below(6) {
+        0 => 0f64.to_bits(),
+        1 => (-0f64).to_bits(),
+        2 => f64::NAN.to_bits(),
+        3 => f64::INFINITY.to_bits(),
+        4 => ((rng.below(2_000_000) as f64 - 1_000_000.0) / 8.0).to_bits(),
+        _ => rng.next(),
+    };
+    match rng.below(11) {
+        0 => "-".into(),
+        1 => format!("i:{}", match rng.below(4) { 0 => i64::MIN, 1 => i64::MAX, 2 => 0, _ => rng.next() as i64 >> rng.below(63) }),
+        2 => format!("f:{}", f(rng)),
+        3 => format!("s:{}", hexs(*rng.pick(&TEXTS[..]))),
+        4 | 5 => format!("h:{}", hexs(*rng.pick(&TEXTS[..]))),
+        6 => format!("b:{}", rng.below(2)),
+        7 => format!("d:{}:{}:{}", f(rng), rng.below(2), rng.below(2)),
+        8 => format!("t:{}", hexs(*rng.pick(&["2024-02-29T12:00:00", "2024-02-29", "12:30:00", "", "x"][..]))),
+        9 => format!("u:{}", hexs(*rng.pick(&["PT12H30M", "P1DT2H", "", "x"][..]))),
+        _ => format!("e:{}", rng.below(8)),
+    }
+}
+
+/// failures (kind, sig, impl, model, expect) for one cell given in the driver's cell syntax
+fn run_dconv(w: &str, drv: &mut Driver) -> Vec<(String, String, String, String, String)> {
+    let p: Vec<&str> = w.split(':').collect();
+    let text = |h: &str| if h == "-" { String::new() } else { String::from_utf8(verif_harness::unhex(h)).unwrap() };
+    let owned_text;
+    let cell: DataRef = match p[0] {
+        "-" => DataRef::Empty,
+        "i" => DataRef::Int(p[1].parse().unwrap()),
+        "f" => DataRef::Float(f64::from_bits(p[1].parse().unwrap())),
+        "s" => DataRef::String(text(p[1])),
+        "h" => {
+            owned_text = text(p[1]);
+            DataRef::SharedString(&owned_text)
+        }
+        "b" => DataRef::Bool(p[1] == "1"),
+        "d" => DataRef::DateTime(ExcelDateTime::new(
+            f64::from_bits(p[1].parse().unwrap()),
+            if p[2] == "1" { ExcelDateTimeType::TimeDelta } else { ExcelDateTimeType::DateTime },
+            p[3] == "1",
+        )),
+        "t" => DataRef::DateTimeIso(text(p[1])),
+        "u" => DataRef::DurationIso(text(p[1])),
+        _ => DataRef::Error(ERRS[p[1].parse::<usize>().unwrap()].clone()),
+    };
+    let str_dep = matches!(cell, DataRef::String(_) | DataRef::SharedString(_));
+    let owned: Data = cell.clone().into();
+    let got = format!("{} {} {}", data_wire(&owned), view_of(&cell, str_dep), view_of(&owned, str_dep));
+    let model = drv.ask(&format!("dconv {w}"));
+    let mut fails = vec![];
+    if got != model {
+        fails.push(("impl_vs_model".into(), "dconv".into(), got.clone(), model.clone(), String::new()));
+    }
+    // the property's "converted cell by cell … are equal": nothing observable differs between the two sides, including
+    // what the number parsers and the float formatting return (NaN compared by bits)
+    let conc = |s: Option<String>, i: Option<i64>, f: Option<f64>| format!("{s:?}/{i:?}/{:?}", f.map(f64::to_bits));
+    let a = conc(cell.as_string(), cell.as_i64(), cell.as_f64());
+    let b = conc(owned.as_string(), owned.as_i64(), owned.as_f64());
+    if a != b || view_of(&cell, str_dep) != view_of(&owned, str_dep) {
+        fails.push(("impl_vs_spec".into(), "dconv:owned-differs-from-borrowed".into(), format!("{} / {b}", view_of(&owned, str_dep)), model, format!("{} / {a}", view_of(&cell, str_dep))));
     }
     fails
 }
@@ -660,12 +795,28 @@ fn main() {
          regions and tables, vba_project, sheet_names, metadata; 10% unknown sheet names); every result is compared with \
          the same call on a FRESH reader brought to the state the Lean model says is in force, and with the path \
          identities of the property; non-trivial = history with a header-row change and at least two reads of the same \
-         sheet; distinct by case text",
+         sheet; distinct by case text; for 1/3 of the files which reader auto-detection wraps (the file, a damaged \
+         variant, by path under 13 extensions) vs Model/Auto.lean given the measured acceptance of the four readers; \
+         plus single cells of every DataRef variant: Data::from and all DataType observations of both sides vs \
+         Model/DataConv.lean, and owned == borrowed for as_string / as_i64 / as_f64",
     );
     let mut cases: Vec<Case> = vec![];
+    let mut cells: Vec<String> = vec![];
     if let Some(inp) = &args.replay {
-        cases.push(Case::parse(inp));
+        if let Some(w) = inp.strip_prefix("dconv ") {
+            cells.push(w.to_string());
+        } else {
+            cases.push(Case::parse(inp));
+        }
     } else {
+        // every variant at least once, then random cells
+        let mut crng = Rng::new(args.seed ^ 0xdc0);
+        for w in ["-", "i:0", "f:0", "s:-", "h:-", "h:3432", "s:3432", "b:1", "d:4674916728738455552:0:1", "d:0:1:0", "t:78", "u:78", "e:0", "e:7"] {
+            cells.push(w.to_string());
+        }
+        for _ in 0..args.count(2000, 200_000) {
+            cells.push(gen_cell_wire(&mut crng));
+        }
         let n = args.count(3000, 300_000);
         let mut rng = Rng::new(args.seed);
         for i in 0..n {
@@ -689,6 +840,14 @@ fn main() {
                     continue;
                 }
             }
+            rep.fail(&kind, &sig, &text, &i, &m, &e);
+        }
+    }
+    for w in &cells {
+        let text = format!("dconv {w}");
+        rep.case(&text, w.starts_with("h:") || w.starts_with("d:"));
+        rep.count(&format!("dconv.{}", w.split(':').next().unwrap()));
+        for (kind, sig, i, m, e) in run_dconv(w, &mut drv) {
             rep.fail(&kind, &sig, &text, &i, &m, &e);
         }
     }
